@@ -644,7 +644,25 @@ def unroll_static_loops(func, tables: dict | None = None, ctables: dict | None =
         if isinstance(n, ast.Name) and isinstance(n.ctx, ast.Load):
             reads[n.id] = reads.get(n.id, 0) + 1
     func.body = _unroll_block(func.body, lits, frozenset(k for k, c in reads.items() if c == 1), attrs)
+    # an f-string whose holes were all replaced by string / integer constants (f"num_of_{'species'}" after unrolling a loop over a
+    # literal table) is the constant it prints
+    func.body = [_ConstFStr().visit(st) for st in func.body]
     return func
+
+
+class _ConstFStr(ast.NodeTransformer):
+    def visit_JoinedStr(self, n):
+        self.generic_visit(n)
+        parts = []
+        for v in n.values:
+            if isinstance(v, ast.Constant) and isinstance(v.value, str):
+                parts.append(v.value)
+            elif isinstance(v, ast.FormattedValue) and v.format_spec is None and v.conversion == -1 and isinstance(v.value, ast.Constant) \
+                    and (isinstance(v.value.value, str) or type(v.value.value) is int):
+                parts.append(str(v.value.value))
+            else:
+                return n
+        return ast.copy_location(ast.Constant(value="".join(parts)), n)
 
 
 # ------------------------------------------------------------------------------------------------------------ call inlining
